@@ -140,6 +140,11 @@ theorem a8_same_add (v d : Nat) (hv : v < 256) (hd : d < 256) :
     a8_store _ (addU_lt _ _ _ (by omega) (by omega) (fun x hx => by cases hx)),
     same_alpha v d (by omega) (by omega)]
 
+/-- the same-format combiner `addSameA8` assumed in C17Draw is what C01's pixel model computes -/
+theorem a8_same_is_addSameA8 (v d : Nat) (hv : v < 256) (hd : d < 256) :
+    compositePixel 12 false (.bits fa8 false) .none (.bits fa8 false) v 0 d = .pixel (addSameA8 v 0 d) := by
+  rw [a8_same_add v d hv hd, addSameA8_sat v d (by omega) (by omega)]
+
 /-- **a4**: the sum of two a4 coverages is `min 15 (a + b)`: widen ×17, saturating byte add, keep
     the top 4 bits (`min 255 (17a + 17b) / 16`) -/
 theorem a4_white_add (m d : Nat) (hm : m < 16) (hd : d < 16) :
